@@ -1650,7 +1650,10 @@ func (bc *Blockchain) removeOldHeaderHashes(index uint32) time.Duration {
 		err     error
 		removed int64
 		start   = time.Now()
-		till    = ((int32(index)+1)/headerBatchCount - 1) * headerBatchCount
+		// Keep the page preceding the one index belongs to: if index is in the
+		// latest (not yet stored) batch of hashes, then the preceding page is the
+		// last stored one and it's needed to initialize header hashes on restart.
+		till = ((int32(index)+1)/headerBatchCount - 2) * headerBatchCount
 	)
 	if till > 0 {
 		err = bc.store.SeekGC(storage.SeekRange{
